@@ -354,6 +354,9 @@ package slice
 //@   at after "out = append(out, Edit[T]{Op: OpDrop, X: lhs[lpos:]})": assert [C11] scriptUpTo(out, lhs, rhs, eq, lp, rp, len(lhs), rpos)
 //@   at after "out = append(out, Edit[T]{Op: OpCopy, Y: rhs[rpos:]})": assert [C11] scriptUpTo(out, lhs, rhs, eq, lp, rp, len(lhs), len(rhs))
 //@   at before "m := 1": assert [C11] scriptUpTo(out, lhs, rhs, eq, lp, rp, lpos, rpos)
+//@   at before "out = append(out, Edit[T]{Op: OpEmit, X: lhs[lpos : lpos+m]})": assert [C11] 0 <= i + m - 1 && i + m - 1 < len(lcs) && eqv(eq, lhs[wa[i + m - 1]], lcs[i + m - 1]) && eqv(eq, rhs[wb[i + m - 1]], lcs[i + m - 1])
+//@   at before "out = append(out, Edit[T]{Op: OpEmit, X: lhs[lpos : lpos+m]})": assert [C11] wa[i + m - 1] >= lpos + m - 1 && wa[i + m - 1] < len(lhs) && wb[i + m - 1] >= rpos + m - 1 && wb[i + m - 1] < len(rhs)
+//@   at before "out = append(out, Edit[T]{Op: OpEmit, X: lhs[lpos : lpos+m]})": assert [C11] lpos + m <= len(lhs) && rpos + m <= len(rhs)
 //@   at before "if len(out) == 1 && out[0].Op == OpEmit": assert [C11] scriptUpTo(out, lhs, rhs, eq, lp, rp, len(lhs), len(rhs))
 //@   loop 1: invariant [C11] idx: 0 <= i && i <= len(lcs) && 0 <= lpos && lpos <= len(lhs) && 0 <= rpos && rpos <= len(rhs)
 //@   loop 1: invariant [C11] wit: forall j int :: {wa[j]} {wb[j]} i <= j && j < len(lcs) ==> wa[j] >= lpos + (j - i) && wb[j] >= rpos + (j - i)
